@@ -150,7 +150,16 @@ func (e *Engine) verifIntrinsic(name string) Intrinsic {
 		return func(e *Engine, st *State, c ssa.CallInstruction, a []Value) []*State {
 			name := e.concStr(a[0], "verifUFStr name")
 			s := a[1].(StrV)
-			e.setResult(st, c, e.TT.UF(fmt.Sprintf("%s/%d", name, len(s.B)), 64, s.B...))
+			res := e.TT.UF(fmt.Sprintf("%s/%d", name, len(s.B)), 64, s.B...)
+			// optional exact table for some strings (natively computed); strings outside it stay uninterpreted
+			if tab, ok := e.Ctx["table:"+name].(map[string]uint64); ok {
+				for k, v := range tab {
+					if len(k) == len(s.B) {
+						res = e.TT.Ite(e.strEq(s, e.ConcreteStr(k)), e.TT.Const(64, v), res)
+					}
+				}
+			}
+			e.setResult(st, c, res)
 			return nil
 		}
 	case "verifUFStrBool":
